@@ -8,7 +8,7 @@ package pogreb
 // offsets fit the 32-bit record offset
 //@ spec func segRecOK(s *segment) bool = s != nil && s.file != nil && fileInv(s.file) && s.file.size >= 512 && s.file.size <= 0xffffffff
 
-//@ func newSegmentIterator(f *segment) (it *segmentIterator, err error) [C04,C08,C19]
+//@ func newSegmentIterator(f *segment) (it *segmentIterator, err error) [C03,C04,C08,C19]
 //@   requires seg: segRecOK(f)
 //@   ensures inv: err == nil ==> it != nil && fresh(it) && segItInv(it) && it.f == f && it.offset == 512 && fresh(it.buf)
 //@   ensures err: err != nil ==> isIOErr(err)
@@ -30,7 +30,7 @@ package pogreb
 //@ spec func recCurOK(it *recoveryIterator) bool = it.segit != nil ==> segItInv(it.segit) && segRecOK(it.segit.f) && it.segit.offset >= 512 && (forall q int :: off(it.segments) <= q && q < off(it.segments)+len(it.segments) ==> segsDiffer(contents(it.segments)[q], it.segit.f))
 //@ spec func recItInv(it *recoveryIterator) bool = it != nil && recSegsOK(it) && recSegsDistinct(it) && recCurOK(it)
 
-//@ func (it *recoveryIterator) next() (rec record, err error) [C04,C08,C19]
+//@ func (it *recoveryIterator) next() (rec record, err error) [C03,C04,C08,C19]
 //@   requires inv: recItInv(it)
 //@   ensures inv: !isIOErr(err) ==> recItInv(it)
 //@   ensures [C04] fileinv-rest: !isIOErr(err) ==> forall q int :: old(off(it.segments)) <= q && q < old(off(it.segments)+len(it.segments)) ==> segRecOK(old(contents(it.segments))[q])
